@@ -229,6 +229,28 @@ def make_body(rng: Rng, kind: str, templater: str = "jinja") -> tuple[str, dict]
     return text, meta
 
 
+INLINE_DIRECTIVES = [
+    "-- sqlfluff:exclude_rules:LT01,CP01",
+    "-- sqlfluff:rules:LT01,LT12,CP01",
+    "-- sqlfluff:max_line_length:30",
+    "-- sqlfluff:rules:capitalisation.keywords:capitalisation_policy:lower",
+    "-- sqlfluff:rules:capitalisation.keywords:capitalisation_policy:upper",
+    "-- sqlfluff:indentation:tab_space_size:2",
+    "-- sqlfluff:layout:type:comma:line_position:leading",
+]
+
+
+def add_inline(rng: Rng, text: str, meta: dict) -> str:
+    """Prepend an in-file config directive (first line, or after a comment line)."""
+    d = rng.choice(INLINE_DIRECTIVES)
+    meta["inline"] = d
+    if rng.chance(0.5):
+        meta["inline_line"] = 2
+        return "-- header comment\n" + d + "\n" + text
+    meta["inline_line"] = 1
+    return d + "\n" + text
+
+
 def encode_body(rng: Rng, text: str, encoding: str, newline: str) -> bytes:
     if newline == "crlf":
         text = text.replace("\n", "\r\n")
@@ -287,6 +309,7 @@ def gen_fix_world(rng: Rng, feats: Optional[dict] = None) -> dict:
         "templater": ["jinja", "jinja", "jinja", "raw", "placeholder"],
         "size_limits": False,
         "suffix": ["", "", "_fixed"],
+        "inline": 0.2,
     }
     if feats:
         f.update(feats)
@@ -345,6 +368,8 @@ def gen_fix_world(rng: Rng, feats: Optional[dict] = None) -> dict:
         if templater != "jinja" and kind in ("tmpl_undef", "tmpl_fatal", "jinja_fixable"):
             kind = "fixable"
         text, m = make_body(rng, kind, templater)
+        if f["inline"] and kind in ("clean", "fixable", "unfixable", "cte_multi") and rng.chance(f["inline"]):
+            text = add_inline(rng, text, m)
         enc = rng.choice(f["encodings"])
         nl = rng.choice(f["newlines"])
         data = encode_body(rng, text, enc, nl)
